@@ -3,7 +3,7 @@ use super::*;
 use crate::verif_root::stubs;
 use crate::{Bytes, Error, Stamp};
 
-pub(crate) const REC: usize = 56;
+pub(crate) const REC: usize = 52;
 
 /// parse_change_data on an arbitrary byte string of arbitrary length <= REC (subsumes truncation at
 /// every offset and overwritten length fields): Err, or a ChangeData whose vectors fit in the
